@@ -104,7 +104,14 @@ ContFailing(o, r) ==
       s1(j) == off(j) * sden(j)
       s2(j) == SafeMul(off(j) * off(j), sden(j))
       hs == hd \div o.sub                               \* 1 / coarse spacing
-  IN (IF \E i \in 0..n : ~Close(r.eld[i + 1], den(i), 3, 8) THEN {"ExpLogDensity"} ELSE {})
+      moments == (IF AbsV(r.m1r - Q) > 300 THEN {"Mean"} ELSE {}) \cup (IF AbsV(r.m2r - Q) > 1000 THEN {"Variance"} ELSE {})
+  IN IF o.narrow = 1
+     \* narrow log-normal (scale < 2^-6): the float32 grid x = exp(loc + scale z) cannot carry the density / CDF laws to
+     \* the quantum; what is decided there is that the STATED mean and variance are the moments of the density (the
+     \* variance (exp(scale^2) - 1) exp(2 loc + scale^2) must not lose its digits to cancellation)
+     THEN moments \cup (IF \E i \in 0..(n - 1) : cdf(i + 1) < cdf(i) THEN {"CdfMonotone"} ELSE {})
+     ELSE
+     (IF \E i \in 0..n : ~Close(r.eld[i + 1], den(i), 3, 8) THEN {"ExpLogDensity"} ELSE {})
      \cup (IF \E i \in 0..(n - 1) : AbsV(trap(i) - 2 * hd * (cdf(i + 1) - cdf(i))) > 2 * hd * 14
            THEN {"DensityIntegratesToCdf"} ELSE {})
      \cup (IF \E i \in 0..(n - 1) : cdf(i + 1) < cdf(i) THEN {"CdfMonotone"} ELSE {})
@@ -120,8 +127,7 @@ ContFailing(o, r) ==
                 (IF AbsV(Sum(s1, 0, ns) - hs * hs * r.mean) > (ns * ns) \div 4 + hs * hs * 40 THEN {"Mean"} ELSE {})
                 \cup (IF AbsV(Sum(s2, 0, ns) - SafeMul(hs * hs * hs, r.var)) > (ns * ns * ns) \div 12 + hs * hs * hs * (MinI(r.var, 20 * Q) \div 2000 + 40)
                       THEN {"Variance"} ELSE {})
-           ELSE (IF AbsV(r.m1r - Q) > 300 THEN {"Mean"} ELSE {})
-                \cup (IF AbsV(r.m2r - Q) > 1000 THEN {"Variance"} ELSE {}))
+           ELSE moments)
 
 Failing(e) ==
   IF Len(e.ret.errs) > 0 THEN {"Total"}
